@@ -53,6 +53,9 @@ func (s *sim) classify() {
 	if s.lockCarried {
 		c.Label("lock:carried-into-later-round")
 	}
+	if s.splitLocks {
+		c.Label("lock:two-correct-validators-locked-on-different-values")
+	}
 	if s.unlocks > 0 {
 		c.Label("lock:prevoted-other-value-after-unlock-condition")
 	}
